@@ -22,8 +22,9 @@ type RolesSpec struct {
 
 func inlineTypesSmall(p *Program) func(f *ssa.Function, d int) bool {
 	tp := p.SSAPkg("types")
+	th := typesHelpers(p)
 	return func(f *ssa.Function, d int) bool {
-		return f.Parent() != nil || (f.Pkg == tp && len(f.Blocks) <= 2)
+		return f.Parent() != nil || (f.Pkg == tp && len(f.Blocks) <= 2) || th(f, d)
 	}
 }
 
